@@ -113,6 +113,7 @@ def check(ctx, rep):
              "or acts on a path of shape root + accepted selector + safe suffix (R01b, R01h)", floor=20)
     rep.rule("R01g", "percent-decoding appears only in protocol handle() before handler selection; none in handlers/", floor=4)
     rep.rule("R01i", "handlers that hand getfspath() to real-file APIs reject non-real VFS objects", floor=3)
+    rep.rule("R01l", "what the stat on the unfiltered selector found reaches only the handlers (no existence oracle in the multiplexer's own reply)", floor=2)
     rep.rule("R01k", "a NUL byte is answered like any missing file: the stat on the unfiltered selector also catches ValueError", floor=2)
     rep.rule("R01j", "arguments of eval/exec/compile/__import__ have configuration provenance only", floor=5)
 
@@ -415,9 +416,10 @@ def check(ctx, rep):
     vfs_gate_obligations(ctx, rep, "R01i", eff)
 
     # ------------------------------------------------------------------ R01k
-    from .c03 import pregate_stat_obligations
+    from .c03 import pregate_stat_obligations, pregate_flow_obligations
 
     pregate_stat_obligations(ctx, rep, "R01k", eff)
+    pregate_flow_obligations(ctx, rep, "R01l", eff)
 
     # ------------------------------------------------------------------ R01j
     dq = ShapeDomain(prog, eff, base)
